@@ -80,6 +80,13 @@ ApplyTx(f, P, k, Bl) == IF k > Len(P) THEN f ELSE
    IN ApplyTx(g, P, k + 1, Bl)
 \* j.start = 0: the journal is empty whatever the log blocks hold
 FinalOf(f, h, j, Bl) == IF j.start = 0 THEN f ELSE ApplyTx(f, ValidPrefix(h), 1, Bl)
+\* "Afterwards the journal is empty": s_start = 0 AND the sequence number the journal superblock announces is past every
+\* transaction that was live in the log -- the tid following the last committed transaction (NextTidOf: the transaction
+\* the replay stopped at, whose blocks may be in the ring) plus one ("Restart the log at the next transaction ID, thus
+\* invalidating any existing commit records in the log", jbd2_journal_recover).  A journal that was already empty
+\* (start = 0) is restarted one past the sequence it announced.  Both front-ends must leave exactly this superblock.
+NextTidOf(h, j)   == IF j.start = 0 THEN j.seq ELSE j.seq + Len(ValidPrefix(h))
+JsbAfterOf(h, j)  == [start |-> 0, seq |-> NextTidOf(h, j) + 1]
 
 \* ------------------------------------------------------------------------------------------------
 \* (3) recovery.c.  C = [L, csum, async]; lg = log; walk state w:
@@ -294,6 +301,7 @@ Damage ==
    /\ UNCHANGED <<jc, head, nseq, jsb, nr, fs, ver, res>>
 
 Final == FinalOf(fs, hist, jsb, DOMAIN fs)
+JsbAfter == JsbAfterOf(hist, jsb)
 Rec   == RecoverOf(jc, log, jsb, fs)
 
 Recover ==
@@ -301,11 +309,11 @@ Recover ==
    /\ fs' = Rec.fs
    /\ jsb' = [start |-> 0, seq |-> IF Rec.err = "" THEN Rec.end + 1 ELSE jsb.seq]     \* *_journal_release(reset = 1)
    /\ nr' = 0                                                                          \* *_clear_recover
-   /\ res' = [err |-> Rec.err, end |-> Rec.end, devs |-> Rec.devs, reason |-> Rec.reason, final |-> Final]
+   /\ res' = [err |-> Rec.err, end |-> Rec.end, devs |-> Rec.devs, reason |-> Rec.reason, final |-> Final, jsbafter |-> JsbAfter]
    /\ phase' = "done"
    /\ UNCHANGED <<jc, log, head, nseq, hist, ver, ndmg>>
 
-NoRes == [err |-> "", end |-> 0, devs |-> {}, reason |-> "", final |-> <<>>]
+NoRes == [err |-> "", end |-> 0, devs |-> {}, reason |-> "", final |-> <<>>, jsbafter |-> [start |-> 0, seq |-> 0]]
 Init == /\ jc = CC /\ log = [p \in 1..L |-> Junk] /\ head = 1 /\ nseq = 1 /\ jsb = [start |-> 0, seq |-> 1] /\ nr = 0
         /\ fs = [b \in Blocks |-> 0] /\ hist = <<>> /\ ver = 0 /\ ndmg = 0 /\ phase = "run" /\ res = NoRes
 
@@ -320,11 +328,11 @@ Spec == Init /\ [][Next]_vars
 \* ------------------------------------------------------------------------------------------------
 \* invariants
 \* The property (must hold with every deviation constant FALSE):
-ReplayExact == (phase = "done") => (fs = res.final /\ jsb.start = 0 /\ nr = 0)
+ReplayExact == (phase = "done") => (fs = res.final /\ jsb = res.jsbafter /\ nr = 0)
 \* With deviations enabled the property may fail only in behaviours that took a deviation:
-ReplayExactOrDev == (phase = "done") => ((fs = res.final \/ res.devs # {}) /\ jsb.start = 0 /\ nr = 0)
+ReplayExactOrDev == (phase = "done") => (((fs = res.final /\ jsb = res.jsbafter) \/ res.devs # {}) /\ jsb.start = 0 /\ nr = 0)
 \* evaluated in every state, before Recover is taken
-ReplayExactAlways == (nr = 1) => (Rec.fs = Final \/ Rec.devs # {})
+ReplayExactAlways == (nr = 1) => ((Rec.fs = Final /\ (Rec.err = "" => Rec.end + 1 = JsbAfter.seq)) \/ Rec.devs # {})
 \* the three passes end at the same transaction (no -EIO from "recovery pass ended at ...")
 PassesAgree == (nr = 1) => Rec.err \notin {"EIO", "HANG"}
 \* ------------------------------------------------------------------------------------------------
